@@ -88,3 +88,48 @@ def check_clamp_last(res: Result, lcs, instances, prop: str) -> int:
       Finding("R-CLAMP.2", f"{kname}|{out}|{rng}|never-clamped", f"no store to `{out}` in {kname} carries a clamp by `{rng}` any more ({stores} stores examined): {why}", lc.fi.file if hasattr(lc.fi, "file") else ""),
     )
   return n
+
+
+def check_returns_clamped(res: Result, sm, instances, prop: str) -> int:
+  """R-CLAMP.3 (path-sensitive): every return of a tabled @wp.func either lies on a path carrying the tabled exempt literal
+  (`<param> == <Enum>.<MEMBER>` as a conjunct of its own) or returns a value with a clamp by the tabled range parameter
+  among its alternatives (`x` itself may be a second alternative: the clamp is applied under a `clamp` switch). A new
+  early return that hands back an unclamped value - an "idle" fast path - bypasses the range limit."""
+  from .. import kir
+  from ..terms import pc_literals
+
+  n = 0
+  for fkey, rng, exempt, p, why in instances:
+    if p != prop:
+      continue
+    fi = sm.func(fkey)
+    ev = kir.evaluate(sm, fi)
+    if not ev.returns:
+      res.error(f"anchor vanished: {fkey} has no returns")
+      continue
+
+    def by_range(t):
+      if not (isinstance(t, T) and t.op == "call" and t.args[0] in CLAMPS):
+        return False
+      bounds = t.args[2:] if t.args[0] == "wp.clamp" else t.args[1:]
+      return any(isinstance(x, T) and x.op == "p" and str(x.args[0]) == rng for b in bounds for x in subterms(b))
+
+    for pc, v in ev.returns:
+      n += 1
+      lits = list(pc_literals(pc))
+      ex = any(pol and t.op == "cmp" and t.args[0] == "==" and any(isinstance(x, T) and x.op == "enum" and (x.args[0], x.args[1]) == exempt for x in t.args[1:]) for t, pol in lits)
+      alts: List[T] = []
+      _unfold(v, alts)
+      clamped = any(by_range(a) for a in alts)
+      res.ob(
+        ex or clamped,
+        f"{fkey}|return|{n}",
+        Finding(
+          "R-CLAMP.3",
+          f"{fkey}|{rng}|unclamped-return",
+          f"{fkey} returns `{show(v)[:80]}` under [{' & '.join(('' if pol else 'not ') + show(t)[:50] for t, pol in lits)[:200]}] without clamping to `{rng}` ({why})",
+          fi.loc() if hasattr(fi, "loc") else fi.file,
+        ),
+        sample={"function": fkey, "return": show(v)[:60], "exempt_path": ex, "clamped": clamped},
+      )
+  return n
